@@ -76,6 +76,30 @@ SxgFailures(ev) ==
               ELSE {"gen-signedexchange wrote an exchange that does not verify per the specification"})
         \cup (IF ev.dump_exit = 0 /\ ev.valid THEN {} ELSE {"dump-signedexchange -verify rejects gen-signedexchange's output"}))
 
+\* gen-signedexchange as a relation between the text of its flags and the file.  flags = <<[n, v]>> in command-line order,
+\* n = text before the first colon, v = the rest, both trimmed.
+FlagField(flags, name) == LET vs == SelectSeq([i \in 1..Len(flags) |-> IF LowerB(flags[i].n) = name THEN [hit |-> TRUE, v |-> flags[i].v] ELSE [hit |-> FALSE, v |-> <<>>]], LAMBDA z : z.hit)
+                          IN JoinWith([i \in 1..Len(vs) |-> vs[i].v], <<44>>)
+FlagsHeld(flags, h) == \A i \in 1..Len(flags) : <<LowerB(flags[i].n), FlagField(flags, LowerB(flags[i].n))>> \in HSet(h)
+SxgFlagFailures(ev) ==
+  LET rr == RefRead(ev.file)
+      pl == RefParsePL(rr.x.sighdr) IN
+  (IF ev.gen_exit = 0 THEN {} ELSE {"gen-signedexchange failed on flags within the documented range"})
+  \cup (IF ev.gen_exit # 0 THEN {}
+        ELSE IF rr.res # "ok" THEN {"gen-signedexchange wrote a file that does not parse per the specification"}
+        ELSE (IF Accept(rr.x, ev.t, ev.leaf).ok /\ Accept(rr.x, ev.t, ev.leaf).payload = ev.content THEN {}
+              ELSE {"gen-signedexchange wrote an exchange that does not verify per the specification"})
+        \cup (IF rr.x.uri = ev.uri /\ rr.x.status = ev.status /\ (HasRequestMap(rr.x) => rr.x.method = ev.method) THEN {}
+              ELSE {"the exchange does not carry the -uri / -status / -method given"})
+        \cup (IF FlagsHeld(ev.respflags, rr.x.resph) THEN {}
+              ELSE {"a -responseHeader flag is not in the exchange as given (name before the first colon, value after it, repeated names comma-joined)"})
+        \cup (IF HasRequestMap(rr.x) => FlagsHeld(ev.reqflags, rr.x.reqh) THEN {}
+              ELSE {"a -requestHeader flag is not in the exchange as given"})
+        \cup (IF ev.hdrdump = HeadersCbor(rr.x) THEN {} ELSE {"-dumpHeadersCbor is not the canonical CBOR of the exchange's headers"})
+        \cup (IF pl.ok /\ Len(pl.v) = 1 /\ ItemWellTyped(pl.v[1].params) /\ ev.msgdump = Msg(rr.x, SpOf(pl.v[1].params)) THEN {}
+              ELSE {"-dumpSignatureMessage is not the message the specification has signed"})
+        \cup (IF ~ev.now \/ (ev.dump_exit = 0 /\ ev.valid) THEN {} ELSE {"dump-signedexchange -verify rejects gen-signedexchange's output"}))
+
 \* HAR import: GET entries with status 100..999; pseudo and banned headers dropped; later entry for a URL dropped unless both carry Variants
 HarExpected(entries) ==
   LET ok(i) == entries[i].method = S_GET /\ entries[i].status >= 100 /\ entries[i].status <= 999
@@ -92,7 +116,7 @@ HarFailures(ev) ==
              THEN {} ELSE {"bundle from HAR does not hold exactly the GET entries with banned / pseudo headers dropped"})
 
 Failures(ev) == CASE ev.kind = "dirbundle" -> DirFailures(ev) [] ev.kind = "ibcli" -> IbFailures(ev) [] ev.kind = "certcli" -> CertFailures(ev)
-                  [] ev.kind = "sxgcli" -> SxgFailures(ev) [] ev.kind = "harcli" -> HarFailures(ev)
+                  [] ev.kind = "sxgcli" -> SxgFailures(ev) [] ev.kind = "sxgflags" -> SxgFlagFailures(ev) [] ev.kind = "harcli" -> HarFailures(ev)
 TraceInit == l = 1
 TraceNext ==
   /\ l <= Len(Trace)
